@@ -343,7 +343,16 @@ def r08c(P, R):
             "parse_config can panic on configuration text: %s" % bad, loc=pc.loc())
 
 
-RULES = [("R08-a", r08a), ("R08-b", r08b), ("R08-c", r08c)]
+def r08pc(P, R):
+    from facts import Program
+    SC = Program(harness.selfcheck_facts())
+    f = SC.fn("selfcheck::panics")
+    kinds = sorted(k for _, k, w, l, n in site_keys(f))
+    R.check("R08-pc", "control:panic-kinds", kinds == ["index", "panic", "unwrap"], "panic!/index/unwrap controls detected",
+            "self-check: the panic inventory sees %s in the control function (expected index, panic, unwrap)" % kinds)
+
+
+RULES = [("R08-pc", r08pc), ("R08-a", r08a), ("R08-b", r08b), ("R08-c", r08c)]
 EXPLANATION = (
     "Panic-freedom argued site by site: (R08-a) every potential panic site (panic!/unreachable!/assert!, unwrap/expect, indexing, "
     "split_at, Vec::remove, RefCell borrows) in every function reachable from the public entry points is enumerated from the typed "
